@@ -313,7 +313,15 @@ impl Report {
 
     pub fn absorb(&mut self, out: RunOutput) {
         self.stats.merge(out.stats);
-        self.violations.extend(out.violations);
+        for v in out.violations {
+            // trouble inside the harness or its environment is never reported as a violation
+            if v.failure.signature == "harness" || v.failure.signature == "infra" {
+                self.infra_errors
+                    .push(format!("{}: {} (case {})", v.failure.signature, v.failure.what, v.case));
+            } else {
+                self.violations.push(v);
+            }
+        }
         self.infra_errors.extend(out.infra_errors);
     }
 
